@@ -239,6 +239,9 @@ def check(ctx: Ctx) -> None:
     ok = any(ctx.eff.paths(start).of(t.ast) == "self._connected" for t in loops)
     rep.ob("R19.6", "the client's interaction loop runs while connected", ok, func=start, construct=loops[0] if loops else "(no while loop)")
     r_no_shared_lock(ctx, "R19.7")
+    # "clients ... are served": a session ends when its client leaves or the server stops - never because of what a line contained
+    from .control import r_containment
+    r_containment(ctx, "R19.10")
     # positive/negative controls for the effect table
     ctl = [e for e in ctx.eff.all() if e.kind == "close" and e.container == "StreamWriter"]
     rep.floor("R19.6", "StreamWriter.close sites in the package (server side + client side)", len(ctl), 2)
